@@ -128,8 +128,8 @@ fn check_short(i: u64, st: &mut Stats) -> Result<(), String> {
     Ok(())
 }
 
-fn desc_short_q(i: u64) -> Value {
-    let (s, b) = short_decode(short_index(Tier::Quick, i));
+fn desc_short_q(t: Tier, i: u64) -> Value {
+    let (s, b) = short_decode(short_index(t, i));
     json!({"state": state_name(s), "bytes": hex(&b)})
 }
 
@@ -202,8 +202,8 @@ fn check_hdr(i: u64, st: &mut Stats) -> Result<(), String> {
     Ok(())
 }
 
-fn desc_hdr_q(i: u64) -> Value {
-    let (s, b) = hdr_decode(Tier::Quick, i);
+fn desc_hdr_q(t: Tier, i: u64) -> Value {
+    let (s, b) = hdr_decode(t, i);
     json!({"state": state_name(s), "len": b.len(), "bytes": hex(&b)})
 }
 
